@@ -937,12 +937,14 @@ class LogicalExpr(CalculusFunction):
             if has(expr, DiffOperator):
                 return cls( expr, domain, evaluate=False)
             else:
-                syms = symbols(ph_coords[:dim], real=True)
                 if isinstance(mapping, InterfaceMapping):
                     mapping = mapping.minus
                     # here we assume that the two mapped domains
                     # are identical in the interface so we choose one of them
-                Ms   = [mapping[i] for i in range(dim)]
+                # there are pdim physical coordinates (pdim > dim for a surface mapping)
+                pdim = mapping.pdim
+                syms = symbols(ph_coords[:pdim], real=True)
+                Ms   = [mapping[i] for i in range(pdim)]
                 expr = expr.subs(list(zip(syms, Ms)))
 
                 if mapping.is_analytical:
